@@ -21,9 +21,9 @@ claim("C09", "model_checking",
       "Every operation from every well-formed state of two lists over a pool of 5 (quick) / 6 (thorough) nodes, with the complete post-state compared to the abstract sequence; unbounded in the number of operations (induction), bounded in the number of nodes.",
       "CBMC has no inductive heap predicates: the node pool is a bound and the result is labelled bounded. Contracts are plain-C spec functions enforced by each function's harness (DESIGN 2.2), not DFCC clauses.",
       "DESIGN.md 5.C09")
-mut("C09", "iterator-remove-tail-not-moved", [("librfn/list.c", "\tif (iter->list->tail == curr)\n\t\titer->list->tail = prev;\n", "")], r"C09")
-mut("C09", "iterator-insert-tail-not-set", [("librfn/list.c", "\tif (!curr)\n\t\titer->list->tail = node;\n", "")], r"C09")
-mut("C09", "extract-next-not-cleared", [("librfn/list.c", "\tlist->head = node->next;\n\tnode->next = NULL;\n", "\tlist->head = node->next;\n")], r"C09")
+mut("C09", "iterator-remove-tail-not-moved", [("librfn/list.c", "\tif (iter->list->tail == curr)\n\t\titer->list->tail = prev;\n", "")], r"C09", skip_tests=True)
+mut("C09", "iterator-insert-tail-not-set", [("librfn/list.c", "\tif (!curr)\n\t\titer->list->tail = node;\n", "")], r"C09", skip_tests=True)
+mut("C09", "extract-next-not-cleared", [("librfn/list.c", "\tlist->head = node->next;\n\tnode->next = NULL;\n", "\tlist->head = node->next;\n")], r"C09", skip_tests=True)
 mut("C09", "push-tail-not-set-on-empty", [("librfn/list.c", "\t} else {\n\t\tlist->tail = node;\n\t}\n\tlist->head = node;", "\t}\n\tlist->head = node;")], r"C09")
-mut("C09", "insert-sorted-gt", [("librfn/list.c", "\t     nodecmp(node, curr) >= 0;\n", "\t     nodecmp(node, curr) > 0;\n")], r"C09")
-mut("C09", "remove-leaves-link", [("librfn/list.c", "\t*(iter->prevnext) = curr->next;\n\tcurr->next = NULL;\n", "\t*(iter->prevnext) = curr->next;\n")], r"C09")
+mut("C09", "insert-sorted-gt", [("librfn/list.c", "\t     nodecmp(node, curr) >= 0;\n", "\t     nodecmp(node, curr) > 0;\n")], r"C09", skip_tests=True)
+mut("C09", "remove-leaves-link", [("librfn/list.c", "\t*(iter->prevnext) = curr->next;\n\tcurr->next = NULL;\n", "\t*(iter->prevnext) = curr->next;\n")], r"C09", skip_tests=True)
